@@ -252,7 +252,14 @@ class World:
         self.cfg = cfg
         self.kind = cfg["kind"]
         self.decl = cfg.get("decl", "file")
+        self.strict = bool(cfg.get("strict", True))
         self.label = f"{cfg['kind']},{DECL_LABEL[self.decl]}"
+        if not self.strict:
+            self.label += ",strict_hash=False"
+        if any("." in k for k in cfg["keys"]):
+            self.label += ",keys=dotted"
+        elif any(not k.isalnum() for k in cfg["keys"]):
+            self.label += ",keys=dash_underscore"
         self.keys = list(cfg["keys"])
         self.nconf = 2 if self.kind == "vector" else None
         self.root = root
@@ -411,7 +418,8 @@ class World:
             reason = "no-cached-output"
         elif rec is None:
             reason = "cached-output-unreadable"
-        elif rec[0] != m.tag:
+        elif rec[0] != m.tag and self.strict:
+            # (strict_hash=False means: do not compare hashes - a successful output is reused whatever input made it)
             reason = "cached-output-of-different-input"
         elif not rec[1]:
             reason = "cached-output-of-failed-run"
@@ -455,6 +463,7 @@ class World:
                     scratch_dir=self.w / "scratch",
                     n_workers=1,
                     kwargs={"tag": m.tag, "mdir": str(self.mdir)},
+                    **({} if self.strict else {"strict_hash": False}),
                 )
         except _Alarm:
             raise HarnessError(f"jobmap did not return within {JOBMAP_TIMEOUT} s: {case}")
@@ -530,7 +539,7 @@ class World:
         outcome_class = {}
         for k in todo:
             recs = [m.cache.get(unit_name(u)) for u in self.units[k]]
-            if all(r is not None and r[0] == m.tag and r[1] and r[2] for r in recs):
+            if all(r is not None and (r[0] == m.tag or not self.strict) and r[1] and r[2] for r in recs):
                 parts = [b"post(" + r[3] + b")" for r in recs]
                 newdest[k] = parts[0] if self.kind == "single" else b"|".join(parts)
                 outcome_class[k] = "succeeded"
@@ -710,22 +719,22 @@ def rot(lst, seed):
     return lst[r:] + lst[:r]
 
 
-def configs(kind, keys, unit_plans, decl="file"):
+def configs(kind, keys, unit_plans, decl="file", strict=True, foreign_opts=(False, True), prepop=True):
     """Every initial configuration: per key either 'already in the destination' or a plan for its units
     (unit_plans: one list of plans for all keys, or a dict key -> list); x foreign key present or not."""
-    per_key = [["DEST"] + list(unit_plans[k] if isinstance(unit_plans, dict) else unit_plans) for k in keys]
+    per_key = [(["DEST"] if prepop else []) + list(unit_plans[k] if isinstance(unit_plans, dict) else unit_plans) for k in keys]
     out = []
     for combo in itertools.product(*per_key):
-        for foreign in (False, True):
+        for foreign in foreign_opts:
             plan = {}
-            prepop = []
+            pre = []
             for k, c in zip(keys, combo):
                 if c == "DEST":
-                    prepop.append(k)
+                    pre.append(k)
                     plan[k] = ["S"] * (1 if kind == "single" else 2)
                 else:
                     plan[k] = list(c)
-            out.append({"kind": kind, "decl": decl, "keys": list(keys), "plan": plan, "prepop": prepop, "foreign": foreign})
+            out.append({"kind": kind, "decl": decl, "strict": strict, "keys": list(keys), "plan": plan, "prepop": pre, "foreign": foreign})
     return out
 
 
@@ -748,7 +757,7 @@ def explore(ctx, cfg, depth, corrupt_kinds, real_runner=False, seen=None):
             return
         key = world.model.canon()
         m = world.model
-        c = (cfg["kind"], cfg.get("decl", "file"), tuple(sorted((k, tuple(v)) for k, v in cfg["plan"].items())), tuple(cfg["prepop"]), cfg["foreign"], m.canon())
+        c = (cfg["kind"], cfg.get("decl", "file"), cfg.get("strict", True), tuple(cfg["keys"]), tuple(sorted((k, tuple(v)) for k, v in cfg["plan"].items())), tuple(cfg["prepop"]), cfg["foreign"], m.canon())
         ctx.state_keys.add(hashlib.blake2b(repr(c).encode(), digest_size=10).digest())
         ctx.outcome(hashlib.sha1(repr(world.last_obs).encode()).hexdigest()[:12])
         if any(v for v in world.last_obs[0] if v[1]) or level > 1:
@@ -791,6 +800,18 @@ def chunk(lst, n):
     return [c for c in out if c]
 
 
+# key alphabets: plain keys, and keys that collide under common path manipulations (with_suffix / stem /
+# splitext on "<key>.inp"), several dots, keys that end like the cache files, '-' and '_'.
+# (Established on the unchanged code: these all work; keys with '/' or spaces do not and are out of scope.)
+KEYSETS = {
+    "lig": ["lig", "lig.1", "lig.2"],
+    "ab": ["a.b", "a.c"],
+    "multi": ["x.y.z", "x.y.w", "x.y"],
+    "ext": ["r.out", "r.inp"],
+    "dash": ["m-1_a", "m-1_b"],
+}
+
+
 # vectorised plans of the quick tier: each scripted outcome once, on either conformer
 VEC5 = [("S", "S"), ("F", "S"), ("S", "FS"), ("O", "S"), ("S", "W")]
 
@@ -815,6 +836,8 @@ def run(ctx):
         "every conformer job of a vectorised item that is not validly cached is executed, also when a sibling conformer fails",
         "item-level failures and destination-only keys must not make jobmap raise",
         "for a job declared without return files the result is what the named command prints; an empty stdout makes post-processing raise (no processed result), and such a run is a plain success for the cache (exit 0): it must not be executed again",
+        "strict_hash=False means 'do not compare hashes': the successful cached output of a different input is reused (and its result stored); outputs of failed runs and unreadable outputs are still never reused",
+        "keys: alphanumerics, '.', '-', '_' (keys with '/' or blanks cannot be used as cache file names by the unchanged code: out of scope)",
         "n_workers=1; the destination is a plain Collection[bytes] on the Ukv backend, the sources are a MoleculeLibrary / ConformerLibrary",
     ]
     parts = []
@@ -826,9 +849,20 @@ def run(ctx):
         parts += [(2, T, False, c) for c in chunk(configs("vector", k2, vec5), nproc * 3)]
         # jobs declared without return files (result on stdout): the histories that reuse / invalidate the cache
         noO = [p for p in single if p != ("O",)]
-        parts += [(2, T, False, c) for c in chunk(configs("single", k2, noO, "none"), nproc * 2)]
-        parts += [(2, T, False, c) for c in chunk(configs("vector", k2, [p for p in vec5 if "O" not in p], "none"), nproc * 3)]
-        parts += [(2, T, False, c) for c in chunk(configs("single", k2, [("S",), ("F",)], "empty"), nproc)]
+        NF = (False,)  # the destination-only key is independent of these dimensions: explored above
+        parts += [(2, T, False, c) for c in chunk(configs("single", k2, noO, "none", foreign_opts=NF), nproc * 2)]
+        parts += [(2, T, False, c) for c in chunk(configs("vector", k2, [p for p in vec5 if "O" not in p], "none", foreign_opts=NF), nproc * 3)]
+        parts += [(2, T, False, c) for c in chunk(configs("single", k2, [("S",), ("F",)], "empty", foreign_opts=NF), nproc)]
+        # strict_hash=False: every history of 1..2 runs again (hashes ignored, failed / unreadable outputs still not reused)
+        parts += [(2, T, False, c) for c in chunk(configs("single", k2, single, strict=False, foreign_opts=NF), nproc * 2)]
+        parts += [(2, T, False, c) for c in chunk(configs("vector", k2, vec5, strict=False, foreign_opts=NF), nproc * 3)]
+        # key alphabets
+        for name, ks in KEYSETS.items():
+            parts += [(2, T, False, c) for c in chunk(configs("single", ks, [("S",), ("F",)], foreign_opts=NF, prepop=False), nproc)]
+            if name in ("lig", "ab", "ext"):
+                parts += [(2, T, False, c) for c in chunk(configs("vector", ks, [("S", "S"), ("F", "S")], foreign_opts=NF, prepop=False), nproc)]
+        ctx.bound["strict_hash"] = "True: everything; False: single (5 scripts) + vectorised (5 plans), 1..2 runs, with pre-populated destinations"
+        ctx.bound["key_sets"] = {k: v for k, v in KEYSETS.items()}
         ctx.bound["declarations"] = {"return_files=('res.txt',)": "all scripts", "return_files=None": "scripts S,F,FS,W; single + vectorised", "return_files=()": "scripts S,F; single"}
         ctx.bound.update({"items": 2, "runs": "1..2", "vector_plans": [list(p) for p in VEC5], "corrupt_kinds": T})
     else:
@@ -838,7 +872,7 @@ def run(ctx):
         parts += [(3, T, False, x) for x in chunk(configs("vector", k2, vec5), nproc * 4)]
         # 1..2 runs: every per-conformer plan pair on k0; 3 items; all corruption kinds
         parts += [(2, CK, False, x) for x in chunk(configs("vector", k2, {"k0": vec25, "k1": vec5}), nproc * 4)]
-        parts += [(2, CK, False, x) for x in chunk(configs("single", k3, single), nproc * 4)]
+        parts += [(2, T, False, x) for x in chunk(configs("single", k3, single), nproc * 4)]
         parts += [(2, T, False, x) for x in chunk(configs("vector", k3, vec5), nproc * 4)]
         # jobs declared without return files (None: result on stdout; ())
         parts += [(3, T, False, x) for x in chunk(configs("single", k2, single, "none"), nproc * 2)]
@@ -847,6 +881,22 @@ def run(ctx):
         parts += [(2, T, False, x) for x in chunk(configs("vector", k2, [("S", "S"), ("F", "S"), ("S", "W")], "empty"), nproc * 2)]
         parts += [(2, T, True, x) for x in chunk(configs("single", k2, [("S",), ("F",)], "none"), 18)]
         ctx.bound["declarations"] = "return_files=None: single 1..3 runs (5 scripts), vectorised 1..2 runs (5 plans, 4 corruption kinds); return_files=(): single (5 scripts) and vectorised (3 plans) 1..2 runs; real runner: single None-declared S/F 1..2 runs"
+        # strict_hash=False
+        NF = (False,)
+        parts += [(3, T, False, x) for x in chunk(configs("single", k2, single, strict=False, foreign_opts=NF), nproc * 2)]
+        parts += [(2, CK, False, x) for x in chunk(configs("vector", k2, vec5, strict=False, foreign_opts=NF), nproc * 3)]
+        parts += [(2, T, False, x) for x in chunk(configs("single", k3, single, strict=False, foreign_opts=NF), nproc * 3)]
+        parts += [(2, T, False, x) for x in chunk(configs("single", k2, noneO := [("S",), ("F",), ("FS",)], "none", strict=False, foreign_opts=NF), nproc)]
+        # key alphabets: all scripts, pre-populated destinations
+        for name, ks in KEYSETS.items():
+            parts += [(2, T, False, x) for x in chunk(configs("single", ks, single, foreign_opts=NF), nproc * 3)]
+            if name in ("lig", "ab", "ext"):
+                parts += [(2, T, False, x) for x in chunk(configs("vector", ks, vec5, foreign_opts=NF), nproc * 3)]
+            parts += [(2, T, False, x) for x in chunk(configs("single", ks, [("S",), ("F",)], strict=False, foreign_opts=NF, prepop=False), nproc)]
+        parts += [(2, T, True, x) for x in chunk(configs("single", k2, [("S",), ("F",)], strict=False, foreign_opts=NF), 9)]
+        parts += [(1, T, True, x) for x in chunk(configs("single", KEYSETS["lig"], [("S",), ("F",)], foreign_opts=NF, prepop=False), 8)]
+        ctx.bound["strict_hash"] = "False: single 1..3 runs (2 items), 1..2 runs (3 items), vectorised 1..2 runs with 4 corruption kinds, None-declared single; real runner single S/F"
+        ctx.bound["key_sets"] = {k: v for k, v in KEYSETS.items()}
         # conformance: the same histories through the unmodified subprocess runner (_molli_run)
         parts += [(2, T, True, x) for x in chunk(configs("single", k2, single), 72)]
         parts += [(1, T, True, x) for x in chunk(configs("vector", k2, vec5), 36)]
